@@ -20,7 +20,7 @@ func c18KeyName(k int) string { return fmt.Sprintf("k%d", k) }
 
 // c18FlightFn builds the callback of one call: it registers an execution,
 // sleeps the hold time and returns (execution id, tagged error or nil).
-func c18FlightFn(clk *c18Clock, log *c18Log, nexec *atomic.Int64, inside []atomic.Int32, overlap *atomic.Int32, g, i int, op c18Op, ev *c18Ev) func() (interface{}, error) {
+func c18FlightFn(clk *c18Clock, log *c18Log, nexec *atomic.Int64, inside []atomic.Int32, overlap *atomic.Int32, g, i int, op c18Op, ev *c18Ev, nest func()) func() (interface{}, error) {
 	return func() (interface{}, error) {
 		id := int(nexec.Add(1))
 		ev.NExec++
@@ -31,6 +31,9 @@ func c18FlightFn(clk *c18Clock, log *c18Log, nexec *atomic.Int64, inside []atomi
 			}
 		}
 		st := clk.now()
+		if nest != nil {
+			nest() // re-entrant call into the same object, on the next key up
+		}
 		c18Sleep(op.H)
 		en := clk.now()
 		if inside != nil {
@@ -38,7 +41,7 @@ func c18FlightFn(clk *c18Clock, log *c18Log, nexec *atomic.Int64, inside []atomi
 		}
 		log.exec(c18Exec{ID: id, Key: op.Key, G: g, I: i, Start: st, End: en, Fail: op.A == 1, Pan: op.A == 2})
 		if op.A == 2 {
-			panic(c18Panic{"flight callback"})
+			panic(c18PanicValue(op, "flight callback"))
 		}
 		if op.A == 1 {
 			return id, c18MakeErr(c18FailKind(op.E), id)
@@ -78,11 +81,18 @@ func c18FlightInterp(t *testing.T, c c18Case) kit.Verdict {
 		sfs := []syncx.SingleFlight{syncx.NewSingleFlight(), syncx.NewSingleFlight()}
 		var nexec atomic.Int64
 		inside := make([]atomic.Int32, 3*c18Inst)
-		return func(g, i int, op c18Op) {
-			sf, name := sfs[op.M], c18KeyName(op.Key) // both groups use the same key strings
-			op.Key = c18EffKey(op)                    // the oracle's key is (instance, key)
+		names := c18KeyNames(c.KA)
+		var do func(g, i int, op c18Op)
+		do = func(g, i int, op c18Op) {
+			sf, name := sfs[op.M], names[op.Key] // both groups use the same key strings
+			var nest func()
+			if op.R == 1 && op.Key < 2 {
+				inner := c18Op{K: "do", Key: op.Key + 1, M: op.M}
+				nest = func() { do(g, i+100, inner) }
+			}
+			op.Key = c18EffKey(op) // the oracle's key is (instance, key)
 			ev := c18Ev{G: g, I: i, Op: op}
-			fn := c18FlightFn(clk, log, &nexec, inside, &overlap, g, i, op, &ev)
+			fn := c18FlightFn(clk, log, &nexec, inside, &overlap, g, i, op, &ev, nest)
 			var val interface{}
 			var err error
 			ev.Inv = clk.now()
@@ -97,7 +107,8 @@ func c18FlightInterp(t *testing.T, c c18Case) kit.Verdict {
 			c18NotePanic(&ev, pan, foreign)
 			ev.Val, ev.Err = c18ValTag(val), c18ErrTag(err)
 			log.ev(ev)
-		}, nil
+		}
+		return do, nil
 	})
 	if overlap.Load() != 0 {
 		v.failf("single-flight: two executions of one key were inside their callbacks at the same time (overlap counter)")
@@ -277,9 +288,13 @@ func c18FlightGen(rt *rapid.T) c18Case {
 		if op.A == 1 {
 			op.E = c18ErrKind(rt, false)
 		}
+		if rapid.IntRange(0, 5).Draw(rt, "reentrant") == 0 {
+			op.R = 1
+		}
 		return op
 	})}
 	c18DrawInstances(rt, c.Gs)
+	c.KA = c18DrawKeyFamily(rt)
 	return c
 }
 
@@ -300,11 +315,18 @@ func c18LockedInterp(t *testing.T, c c18Case) kit.Verdict {
 		lcs := []syncx.LockedCalls{syncx.NewLockedCalls(), syncx.NewLockedCalls()}
 		var nexec atomic.Int64
 		inside := make([]atomic.Int32, 3*c18Inst)
-		return func(g, i int, op c18Op) {
-			lc, name := lcs[op.M], c18KeyName(op.Key)
+		names := c18KeyNames(c.KA)
+		var do func(g, i int, op c18Op)
+		do = func(g, i int, op c18Op) {
+			lc, name := lcs[op.M], names[op.Key]
+			var nest func()
+			if op.R == 1 && op.Key < 2 {
+				inner := c18Op{K: "do", Key: op.Key + 1, M: op.M}
+				nest = func() { do(g, i+100, inner) }
+			}
 			op.Key = c18EffKey(op)
 			ev := c18Ev{G: g, I: i, Op: op}
-			fn := c18FlightFn(clk, log, &nexec, inside, &overlap, g, i, op, &ev)
+			fn := c18FlightFn(clk, log, &nexec, inside, &overlap, g, i, op, &ev, nest)
 			var val interface{}
 			var err error
 			ev.Inv = clk.now()
@@ -313,7 +335,8 @@ func c18LockedInterp(t *testing.T, c c18Case) kit.Verdict {
 			c18NotePanic(&ev, pan, foreign)
 			ev.Val, ev.Err = c18ValTag(val), c18ErrTag(err)
 			log.ev(ev)
-		}, nil
+		}
+		return do, nil
 	})
 	if overlap.Load() != 0 {
 		v.failf("locked-calls: two executions of one key were inside their callbacks at the same time (overlap counter)")
@@ -421,9 +444,13 @@ func c18LockedGen(rt *rapid.T) c18Case {
 		if op.A == 1 {
 			op.E = c18ErrKind(rt, false)
 		}
+		if rapid.IntRange(0, 5).Draw(rt, "reentrant") == 0 {
+			op.R = 1
+		}
 		return op
 	})}
 	c18DrawInstances(rt, c.Gs)
+	c.KA = c18DrawKeyFamily(rt)
 	return c
 }
 
@@ -440,6 +467,7 @@ type c18Closer struct {
 	id     int
 	key    int
 	ek     int // kind of error value its Close returns (0: nil)
+	preset bool // registered with Set, not created by a Get
 	closed atomic.Int32
 }
 
@@ -462,20 +490,41 @@ func c18ManagerInterp(t *testing.T, c c18Case) kit.Verdict {
 	log, res := c18PlayRounds(t, c, true, func(clk *c18Clock, log *c18Log) (func(g, i int, op c18Op), func()) {
 		ms := []*syncx.ResourceManager{syncx.NewResourceManager(), syncx.NewResourceManager()}
 		var nexec atomic.Int64
-		return func(g, i int, op c18Op) {
-				m, name := ms[op.M], c18KeyName(op.Key) // both managers use the same key strings
-				op.Key = c18EffKey(op)                  // the oracle's key is (manager, key)
+		names := c18KeyNames(c.KA)
+		// Set: resources registered up front for the (manager, key) pairs in the
+		// bit mask P; Gets of such a key never create, Close closes them too
+		for ek := 0; ek < 3*c18Inst; ek++ {
+			if c.P&(1<<uint(ek)) != 0 {
+				cl := &c18Closer{id: 1000 + ek, key: ek, ek: (ek * 3) % c18ErrKindsCount, preset: true}
+				closers = append(closers, cl)
+				at := clk.now()
+				log.exec(c18Exec{ID: cl.id, Key: ek, G: -1, Start: at, End: at})
+				ms[ek/3].Set(names[ek%3], cl)
+			}
+		}
+		var do func(g, i int, op c18Op)
+		do = func(g, i int, op c18Op) {
+				m, name := ms[op.M], names[op.Key] // both managers use the same key strings
+				var nest func()
+				if op.R == 1 && op.Key < 2 {
+					inner := c18Op{K: "get", Key: op.Key + 1, M: op.M}
+					nest = func() { do(g, i+100, inner) }
+				}
+				op.Key = c18EffKey(op) // the oracle's key is (manager, key)
 				ev := c18Ev{G: g, I: i, Op: op}
 				create := func() (io.Closer, error) {
 					id := int(nexec.Add(1))
 					ev.NExec++
 					ev.Exec = id
 					st := clk.now()
+					if nest != nil {
+						nest() // the creator asks the same manager for the next key up
+					}
 					c18Sleep(op.H)
 					en := clk.now()
 					log.exec(c18Exec{ID: id, Key: op.Key, G: g, I: i, Start: st, End: en, Fail: op.A == 1, Pan: op.A == 2})
 					if op.A == 2 {
-						panic(c18Panic{"resource creator"})
+						panic(c18PanicValue(op, "resource creator"))
 					}
 					if op.A == 1 {
 						return nil, c18MakeErr(c18FailKind(op.E), id)
@@ -503,7 +552,8 @@ func c18ManagerInterp(t *testing.T, c c18Case) kit.Verdict {
 					ev.Val = 0
 				}
 				log.ev(ev)
-			}, func() {
+			}
+		return do, func() {
 				// each manager closes its own resources, all of them, and only them
 				for m := 0; m < c18Inst; m++ {
 					m := m
@@ -544,6 +594,18 @@ func c18ManagerInterp(t *testing.T, c c18Case) kit.Verdict {
 				v.failf("resource-manager %d: Close panicked with %d failing closers (%s)", m, failing, closePanic[m])
 			} else if (closeErrs[m] != nil) != (failing > 0) {
 				v.failf("resource-manager %d: Close returned %v although %d of its closers failed", m, closeErrs[m], failing)
+			}
+		}
+	}
+	// keys registered with Set: every Get returns that resource and never creates
+	for _, cl := range closers {
+		if !cl.preset {
+			continue
+		}
+		v.class("resource-registered-with-Set")
+		for _, ev := range log.evs {
+			if ev.Op.Key == cl.key && (ev.Exec != 0 || ev.Val != cl.id || ev.Err != 0 || ev.Pan) {
+				v.failf("resource-manager: manager %d key %d was registered with Set (resource %d) but Get g%d#%d ran its creator=%v, returned resource %d, error tag %d, panicked=%v", cl.key/3, cl.key%3, cl.id, ev.G, ev.I, ev.Exec != 0, ev.Val, ev.Err, ev.Pan)
 			}
 		}
 	}
@@ -716,9 +778,16 @@ func c18ManagerGen(rt *rapid.T) c18Case {
 				op.E = c18ErrKind(rt, true)
 			}
 		}
+		if rapid.IntRange(0, 5).Draw(rt, "reentrant") == 0 {
+			op.R = 1
+		}
 		return op
 	})}
 	c18DrawInstances(rt, c.Gs)
+	c.KA = c18DrawKeyFamily(rt)
+	if rapid.IntRange(0, 2).Draw(rt, "presetWithSet") == 0 {
+		c.P = rapid.IntRange(1, 1<<(3*c18Inst)-1).Draw(rt, "presetMask")
+	}
 	return c
 }
 
